@@ -1,10 +1,22 @@
-"""C15 — configuration of the check (deductive tier under construction)."""
+"""C15 — Undefined pixels stay undefined: mask semantics and tile persistence."""
 PROPERTY = "C15"
 LEVEL = "other"
-CONTRACT_MODULES = ["contracts.specfuns"]
-FUNCTIONS = []
+CONTRACT_MODULES = ["contracts.specfuns", "contracts.image"]
+FUNCTIONS = [
+    "toasty.image.Image.fill_into_maskable_buffer",
+    "toasty.image.Image.update_into_maskable_buffer",
+    "toasty.image.Image.clear",
+    "toasty.image.Image.is_completely_masked",
+]
 LEMMAS = []
 SLOW = ()
-TRUSTED_BASE = []
-ASSUMPTIONS = []
-EXPLANATION = "bounded run-time tier only so far"
+TRUSTED_BASE = [
+    "pyvc VC generator; z3/cvc5",
+    "numpy contracts of DESIGN.md 3.1 as encoded in pyvc/ndarray.py (basic slicing = slice.indices, views alias, "
+    "fill, slice assignment, putmask, elementwise comparison/logic, isnan, any/all)",
+]
+ASSUMPTIONS = ["F16x3 images are NaN in all channels of a pixel or in none (invariant of data produced by toasty)",
+               "rectangle indexers are basic slices with step +1/-1 (the forms used in the repository); integer-array "
+               "indexers of the chunk sampler are covered by the bounded tier",
+               "codec round trips (png/npy/fits) are covered by the bounded tier only"]
+EXPLANATION = "fill / update / clear / is-masked proved per image mode for all sizes and slice rectangles"
